@@ -1,5 +1,7 @@
 import CJ.Lemmas.Covert
 import CJ.Lemmas.Config
+import CJ.Lemmas.IngestOrder
+import CJ.Gen.C06Ingest
 /-!
 # C06 — the station never dials a covert address that policy forbids
 
@@ -483,6 +485,75 @@ theorem dial_string_stable (w : World) (i : Nat) (s : String) (hinv : Inv env po
       · rw [step_done env pol inp rs w i (by rw [← hei]; exact hdone)]; exact h
       · rw [step_covertOf_other env pol inp rs w i _ hei]; exact h
 
+/-! ### the dial-back of connecting transports -/
+
+/-- worker `i` is finished and its object holds the accepted output of its own admission check -/
+def Settled (w : World) (i : Nat) : Prop := w.pc i = .done ∧ Checked env pol inp rs w i
+
+theorem settled_step (w : World) (i k : Nat) (h : Settled env pol inp rs w i) :
+    Settled env pol inp rs (step env pol inp rs w k) i := by
+  obtain ⟨hd, hc⟩ := h
+  by_cases hki : i = k
+  · subst hki
+    rw [step_done env pol inp rs w i hd]; exact ⟨hd, hc⟩
+  · exact ⟨by rw [step_pc_other env pol inp rs w k i hki]; exact hd,
+      checked_of_covertOf_eq env pol inp rs (step_covertOf_other env pol inp rs w k i hki) hc⟩
+
+theorem settled_run (sched : List Nat) (w : World) (i : Nat) (h : Settled env pol inp rs w i) :
+    Settled env pol inp rs (runSched env pol inp rs w sched) i := by
+  induction sched generalizing w with
+  | nil => exact h
+  | cons k rest ih => exact ih _ (settled_step env pol inp rs w i k h)
+
+theorem launch_settled (w : World) (j : Nat) (hinv : Inv env pol inp rs w) (hpc : w.pc j = .beforeRegister) :
+    Settled env pol inp rs (step env pol inp rs w j) j := by
+  refine ⟨?_, ?_⟩
+  · unfold step; simp [hpc, updateAt]
+  · exact checked_of_covertOf_eq env pol inp rs
+      (step_covertOf_self env pol inp rs w j (by rw [hpc]; intro h; cases h)) (hinv.ready j hpc)
+
+theorem launched_settled (connecting : Nat → Bool) (sched : List Nat) (w : World) (hinv : Inv env pol inp rs w)
+    (i : Nat) (hi : i ∈ launched connecting env pol inp rs w sched) (sched' : List Nat) :
+    Settled env pol inp rs (runSched env pol inp rs w (sched ++ sched')) i := by
+  induction sched generalizing w with
+  | nil => simp [launched] at hi
+  | cons j rest ih =>
+    simp only [launched, List.mem_append] at hi
+    simp only [List.cons_append, runSched]
+    rcases hi with hi | hi
+    · by_cases hc : w.pc j = .beforeRegister ∧ connecting j = true
+      · simp only [hc, and_self, if_true, List.mem_singleton] at hi
+        subst hi
+        exact settled_run env pol inp rs _ _ _ (launch_settled env pol inp rs w i hinv hc.1)
+      · simp [hc] at hi
+    · exact ih _ (inv_step env pol inp rs w j hinv) hi
+
+/-- **A dial-back happens only after admission, and dials what admission returned.**  Any number of workers
+for one key, any interleaving: every dial-back goroutine that is launched belongs to a worker that has
+finished its ingest with an accepted covert, and *whenever* that goroutine reads `reg.Covert` afterwards
+(after any further steps `sched'` of any workers) the field holds the accepted output of the admission check
+of that worker's own covert string — the literal of an address the policy does not forbid.  In particular
+no dial-back is launched for a registration whose covert was refused. -/
+theorem dialback_only_after_admission (connecting : Nat → Bool) (raw : Nat → String) (c : Nat) (sched sched' : List Nat)
+    (i : Nat) (hi : i ∈ launched connecting env pol inp rs (World.init raw c) sched) :
+    ∃ n host port ip, (inp.ans i).split = some (host, port) ∧ rs n = .addr (some ip) "" ∧
+      env.unspecified ip = false ∧ ¬ Forbids env pol ip ∧
+      (∀ p ∈ pol.domains, env.matchString p host = false) ∧
+      (runSched env pol inp rs (World.init raw c) (sched ++ sched')).covertOf i =
+        (parseOrResolve env pol (inp.ans i) rs n).out ∧
+      (runSched env pol inp rs (World.init raw c) (sched ++ sched')).covertOf i = joinHostPort (env.ipText ip) port := by
+  obtain ⟨_, n, hne, heq⟩ := launched_settled env pol inp rs connecting sched _ (inv_init env pol inp rs raw c) i hi sched'
+  obtain ⟨host, port, ip, hs, _, hd, hr, hu, hf, hout⟩ := accepted_is_permitted_literal env pol (inp.ans i) rs n hne
+  exact ⟨n, host, port, ip, hs, hr, hu, hf, hd, heq, by rw [heq, hout]⟩
+
+/-- no admission, no dial-back: if no check of worker `i`'s covert string accepts, `i` launches nothing -/
+theorem refused_launches_no_dialback (connecting : Nat → Bool) (raw : Nat → String) (c : Nat) (sched : List Nat) (i : Nat)
+    (hrej : ∀ n, (parseOrResolve env pol (inp.ans i) rs n).out = "") :
+    i ∉ launched connecting env pol inp rs (World.init raw c) sched := by
+  intro hi
+  obtain ⟨_, n, hne, _⟩ := launched_settled env pol inp rs connecting sched _ (inv_init env pol inp rs raw c) i hi []
+  exact hne (hrej n)
+
 end workers
 
 /-! ### non-vacuity -/
@@ -547,6 +618,24 @@ example : (runSched env0 pol0 inp0 rs0 (World.init raw0 0) [1, 1, 1, 1, 0, 0, 0,
     = some (joinHostPort "198.51.100.7" "443") := by
   simp [runSched, step, World.init, World.dialString, updateAt, registerStep, parseOrResolve, inp0, ans0, rs0, env0,
     pol0, isBlocklistedCovertDomain, isBlocklistedCovertAddr, addrText, joinHostPort_ne_empty]
+-- a connecting transport: the worker with the permitted literal launches one dial-back, for its own object,
+-- at the very end; the worker whose covert is refused launches none
+example : launched (fun _ => true) env0 pol0 inp0 rs0 (World.init raw0 0) [1, 1, 1, 1] = [1] := by
+  simp [launched, step, World.init, updateAt, parseOrResolve, inp0, ans0, rs0, env0,
+    pol0, isBlocklistedCovertDomain, isBlocklistedCovertAddr, addrText, joinHostPort_ne_empty]
+example : launched (fun _ => true) env0 pol0 inp0 rsTwo (World.init raw0 0) [0, 0, 0, 0] = [] := by
+  simp [launched, step, World.init, updateAt, parseOrResolve, inp0, ans0, rsTwo, env0, pol0, isBlocklistedCovertDomain]
+/-- **Why the dial-back has to come after the admission step**: with `handleConnectingTpReg` called right
+after the registration is tracked (in front of `ParseOrResolveBlocklisted`) a dial-back is launched for the
+worker whose covert is then refused, and its goroutine finds the client's raw string — a name that is
+resolved at dial time — in `reg.Covert`. -/
+theorem early_dialback_dials_unchecked_covert :
+    0 ∈ launchedEarly (fun _ => true) env0 pol0 inp0 rsTwo (World.init raw0 0) [0, 0, 0, 0] ∧
+    (runSched env0 pol0 inp0 rsTwo (World.init raw0 0) [0, 0, 0, 0]).covertOf 0 = "evil.test:80" ∧
+    (runSched env0 pol0 inp0 rsTwo (World.init raw0 0) [0, 0, 0, 0]).dialString = none := by
+  refine ⟨?_, ?_, ?_⟩ <;>
+  simp [launchedEarly, runSched, step, World.init, World.dialString, updateAt, parseOrResolve, inp0, ans0, rsTwo, env0, pol0,
+    isBlocklistedCovertDomain, raw0]
 -- the dial of that string consumes no resolver answer
 def L0 : DialLib Unit :=
   { splitHostPort := fun s => if s = joinHostPort "198.51.100.7" "443" then some ("198.51.100.7", "443") else none,
@@ -556,5 +645,38 @@ example : netDial L0 (joinHostPort "198.51.100.7" "443") rsFlip 3 = (.literal ()
 -- the unspecified address is rejected although no list names it
 example : (parseOrResolve { env0 with unspecified := fun _ => true } pol0 ans0 rs0 0).out = "" :=
   unspecified_never_accepted _ pol0 ans0 rs0 0 () "" rfl rfl
+
+/-! ### the order of the steps of `ingestRegistration`, as extracted from the source
+
+The model above launches the dial-back in the last segment of a worker, after `AddRegistration`
+(`launched`), and lets nothing else dial a registration that is not valid.  That the code has this shape is
+read off the syntax tree on every run (`CJ/Gen/C06Ingest.lean`). -/
+
+set_option maxRecDepth 16000 in
+open CJ.IngestOrder in
+/-- **Every call that can lead to a dial is dominated by the admission check and by `AddRegistration`**: the
+body of `ingestRegistration` has no loops / switches / gotos / defers; every call, `go` statement or deferred
+call of a function from which `Dial*(… reg.Covert …)` is reachable comes after — at nesting depth 0 and in this
+order — `ParseOrResolveBlocklisted`, the `return` on an empty result, the overwrite `reg.Covert = <result>` and
+`AddRegistration`; the `Covert` field is assigned nowhere else in that body; there is such a call (the table is
+not empty); and the dial-leading functions are called from nowhere but one another and `ingestRegistration`. -/
+theorem dial_dominated_by_admission :
+    CJ.Gen.C06Ingest.ingestHasJumps = false ∧
+    dominated CJ.Gen.C06Ingest.dialLeading 0 CJ.Gen.C06Ingest.ingestSteps = true ∧
+    CJ.Gen.C06Ingest.ingestSteps.filter (fun s => s.1 == "assign") = [("assign", "Covert:=admitted", 0)] ∧
+    (CJ.Gen.C06Ingest.ingestSteps.any (isDialStep CJ.Gen.C06Ingest.dialLeading)) = true ∧
+    "Proxy" ∈ CJ.Gen.C06Ingest.dialLeading ∧
+    (∀ c ∈ CJ.Gen.C06Ingest.dialCalls, c.1 ∈ CJ.Gen.C06Ingest.dialLeading ∨ c.1 = "ingestRegistration") := by
+  decide
+
+open CJ.IngestOrder in
+/-- spelled out: wherever the flattened body is split at a dial step, the four markers occur in front of it,
+in their order -/
+theorem dial_step_after_markers (pre : List Step) (s : Step) (post : List Step)
+    (hsplit : CJ.Gen.C06Ingest.ingestSteps = pre ++ s :: post)
+    (hs : isDialStep CJ.Gen.C06Ingest.dialLeading s = true) : markers.Sublist pre := by
+  have h := dial_dominated_by_admission.2.1
+  rw [hsplit] at h
+  exact dominated_markers_before _ pre s post h hs
 
 end CJ.Props.C06
